@@ -13,14 +13,14 @@ VARIABLES blk, tid, verdict
 
 Dense == IOEnv.DENSE = "1"
 Samples(vb) == IF Dense
-               THEN { <<4 * i + 2, 4 * j + 2>> : i \in (2 * (vb[1] - 2))..(2 * (vb[1] + vb[3] + 2) - 1),
+               THEN { <<4 * i + 1, 4 * j + 2>> : i \in (2 * (vb[1] - 2))..(2 * (vb[1] + vb[3] + 2) - 1),
                                                  j \in (2 * (vb[2] - 2))..(2 * (vb[2] + vb[4] + 2) - 1) }
-               ELSE { <<8 * i + 2, 8 * j + 6>> : i \in (vb[1] - 2)..(vb[1] + vb[3] + 1),
+               ELSE { <<8 * i + 2, 8 * j + 5>> : i \in (vb[1] - 2)..(vb[1] + vb[3] + 1),
                                                  j \in (vb[2] - 2)..(vb[2] + vb[4] + 1) }
 (* position of sample p in the projection's grid (row-major in i, then j) *)
 GridIdx(vb, p) == IF Dense
-                  THEN ((p[1] - 2) \div 4 - 2 * (vb[1] - 2)) * (2 * (vb[4] + 4)) + ((p[2] - 2) \div 4 - 2 * (vb[2] - 2)) + 1
-                  ELSE ((p[1] - 2) \div 8 - (vb[1] - 2)) * (vb[4] + 4) + ((p[2] - 6) \div 8 - (vb[2] - 2)) + 1
+                  THEN ((p[1] - 1) \div 4 - 2 * (vb[1] - 2)) * (2 * (vb[4] + 4)) + ((p[2] - 2) \div 4 - 2 * (vb[2] - 2)) + 1
+                  ELSE ((p[1] - 2) \div 8 - (vb[1] - 2)) * (vb[4] + 4) + ((p[2] - 5) \div 8 - (vb[2] - 2)) + 1
 
 (* source layers with resolved gradient paints; a gradient without stops paints nothing *)
 WithGrad(doc, ls) ==
